@@ -421,7 +421,8 @@ void DAGraphImpl<GraphImpl>::rootAt(Graph::NodeId newRoot)
   else
   {
     GraphImpl::orientate();
-    isRooted_ = true;
+    // orientate() only treats what is connected to the new root: let isRooted() count the father-less nodes again
+    isRooted_ = false;
   }
 }
 
